@@ -123,6 +123,15 @@ def gen(tier, rng):
             for op in ops:
                 yield _case([op], [e], n % 2 == 0, "exhaustive")
                 n += 1
+    # through the entry point: documents whose entry has field keys that are different as written (also ones equal up to
+    # case), parsed with the middleware appended
+    vkeys = ["title", "Title", "TITLE", "author", "Author", "year", "b", "A"]
+    for ln in (1, 2, 3):
+        for keys in itertools.permutations(vkeys, ln):
+            for op in ("norm", "alpha", ["custom", ["author", "title"], False], ["custom", ["Title", "year"], True]):
+                c = _case([op], [_entry(list(keys))], True, "viaparse")
+                c["vp"] = True
+                yield c
     # the two configuration-free middlewares on longer entries (all key patterns up to k+2 fields)
     for ln in range(k + 1, k + 3):
         for keys in itertools.product(POOL, repeat=ln):
@@ -235,8 +244,33 @@ def _run(case):
     return lib
 
 
+def _viaparse_check(case):
+    """The same through the entry point: a document holding the entry (field keys pairwise different as written, possibly
+    equal up to case), parsed with parse_string(text, append_middleware=[middleware]), gives one entry with the fields the
+    middleware gives for the hand-built entry."""
+    import bibtexparser
+    from bibtexparser import model as M
+    e = case["lib"][0]
+    fields = [(f[0], f[1]) for f in e[3]]
+    text = "@article{k,\n" + ",\n".join(" %s = {%s}" % kv for kv in fields) + "\n}\n"
+    op = case["ops"][0]
+    from bibtexparser.library import Library
+    want_e = _mk(op, True).transform(Library([M.Entry("article", "k", [M.Field(k, v) for k, v in fields])])).blocks[0]
+    want = [(f.key, f.value) for f in want_e.fields]
+    lib = bibtexparser.parse_string(text, append_middleware=[_mk(op, True)])
+    if len(lib.blocks) != 1 or type(lib.blocks[0]) is not M.Entry:
+        return "parse_string(%r, append_middleware=[%r]) returns %r instead of one entry" % (text, op, [type(b).__name__ for b in lib.blocks])
+    got = [(f.key, f.value) for f in lib.blocks[0].fields]
+    if got != want:
+        return "parse_string(%r, append_middleware=[%r]) gives the fields %r, the middleware on the entry gives %r" % (text, op, got, want)
+    return None
+
+
 def impl(case):
-    return W.ok(W.enc_blocks(_run(case).blocks))
+    res = W.ok(W.enc_blocks(_run(case).blocks))
+    if case.get("vp") and _viaparse_check(case) is not None:
+        return res + " (via-parse-differs)"
+    return res
 
 
 def nontrivial(case, out):
@@ -324,6 +358,10 @@ def _check_fields(op, before, after):
 
 def oracle(case):
     from bibtexparser import model as M
+    if case.get("vp"):
+        f = _viaparse_check(case)
+        if f:
+            return f
     ip = case.get("ip", True)
     ops = case["ops"]
     # order-list validation happens at construction
